@@ -312,7 +312,7 @@ pub fn run(run: &mut Run) {
     let sel = if thorough {
         Sel { m3: true, ray: Some(3), ep: Some(true), castle: Some(true), promo: Some(true), reach: Some(4), sanamb: Some((3, true)), pin2: Some(4), sanmany: true, sanpin: true, pawncap2: true, promo2: true, battery: Some((7, true)), ..Default::default() }
     } else {
-        Sel { m3: true, ray: Some(2), ep: Some(false), castle: Some(false), promo: Some(false), reach: Some(3), sanamb: Some((3, false)), m4_corner: Some(2), pin2: Some(3), sanmany: true, sanpin: true, pawncap2: true, battery: Some((2, false)), ..Default::default() }
+        Sel { m3: true, ray: Some(2), ep: Some(false), ep_spread_only: true, castle: Some(false), promo: Some(false), reach: Some(3), sanamb: Some((3, false)), sanamb_kings: 2, m4_corner: Some(-2), pin2: Some(2), sanmany: true, sanpin: true, pawncap2: true, battery: Some((2, false)), ..Default::default() }
     };
     run_universes(run, &sel, DISAGREE, &check_pos);
     if thorough {
@@ -328,7 +328,12 @@ pub fn run(run: &mut Run) {
     run.notes.push("short forms: all 576 texts [a-h][a-h](=?[NBRQ])? parsed in every state of the listed universes (and of the edit universes)".into());
     run_universes(run, &sels, DISAGREE, &check_pos_short);
     // single-edit neighbourhoods of every canonical text
-    let sele = Sel { reach: Some(2), ep: Some(false), ep_spread_only: !thorough, ..Default::default() };
+    let sele = if thorough { Sel { reach: Some(2), ep: Some(false), ..Default::default() } } else { Sel { reach: Some(2), ..Default::default() } };
+    if !thorough {
+        // quick: the en-passant family gets the abbreviated forms, the edits run on REACH(2)
+        let selep = Sel { ep: Some(false), ep_spread_only: true, ..Default::default() };
+        run_universes(run, &selep, DISAGREE, &check_pos_short);
+    }
     run.notes.push("edits: every single-edit neighbour (substitution, insertion, deletion over the 28-symbol alphabet) of every canonical SAN text, in the state where it is canonical".into());
     run_universes(run, &sele, DISAGREE, &check_pos_edits);
     // all strings over the class alphabet on P30
